@@ -37,7 +37,7 @@ ASSUMPTIONS = [
     "'the end marker' = EI followed by a byte for which bytes.isspace() is true; inline data is written as ID<space>data<LF>EI<LF> and does not end in CR",
     "export formats limited to those that do not need Pillow (DCT pass-through, 1-bit / 8-bit gray / 8-bit RGB bitmaps)",
 ]
-PROBES = ["page with shifted MediaBox or /Rotate", "one ImageWriter for two documents", "ASCII85 inline data contains EI + white space", "two inline images with the same data bytes", "dct data continues behind the EOI marker", "CR after ID and data starting with LF", "dct behind further filters", "same XObject drawn twice", "inline image ending at the ASCII85 marker", "inline image", "xobject image", "gray8", "rgb8", "1bit", "dct", "filter chain", "unfiltered", "row padding needed", "boundary placed in inline markers", "contents split after image", "inline data contains EI", "preexisting export name", "two images same name", "bmp exported", "jpg exported"]
+PROBES = ["run under settings.STRICT", "page with shifted MediaBox or /Rotate", "one ImageWriter for two documents", "ASCII85 inline data contains EI + white space", "two inline images with the same data bytes", "dct data continues behind the EOI marker", "CR after ID and data starting with LF", "dct behind further filters", "same XObject drawn twice", "inline image ending at the ASCII85 marker", "inline image", "xobject image", "gray8", "rgb8", "1bit", "dct", "filter chain", "unfiltered", "row padding needed", "boundary placed in inline markers", "contents split after image", "inline data contains EI", "preexisting export name", "two images same name", "bmp exported", "jpg exported"]
 TIERS = {
     "quick": {"batches": 16, "runs": 450, "budget_s": 50},
     "thorough": {"batches": 128, "runs": 500, "budget_s": 1200},
@@ -317,6 +317,23 @@ def export_child(data, outdir, mode, sibling=None):
 
 
 def run(tape, ctx, item=None):
+    # the library's strict setting is a knob of the run: well-formed input reads the same under it
+    if tape.coin(8, 100, "knob.strict"):
+        from pdfminer import settings as _settings
+
+        ctx.probe("run under settings.STRICT")
+        _settings.STRICT = True
+        try:
+            out = run_inner(tape, ctx, item)
+        finally:
+            _settings.STRICT = False
+        for d in out.devs:
+            d.msg = "under settings.STRICT: " + d.msg
+        return out
+    return run_inner(tape, ctx, item)
+
+
+def run_inner(tape, ctx, item=None):
     t = tape
     devs = []
     images = []
